@@ -10,7 +10,7 @@ at valid locations.
 
 from collections import namedtuple
 
-from xdis.bytecode import get_instructions_bytes
+from xdis.bytecode import CellNames, get_instructions_bytes
 from xdis.codetype.base import iscode
 from xdis.load import check_object_path, load_module
 from xdis.op_imports import get_opcode_module
@@ -57,7 +57,7 @@ class LineOffsetInfo(object):
             varnames=code.co_varnames,
             names=code.co_names,
             constants=code.co_consts,
-            cells=code.co_cellvars + code.co_freevars,
+            cells=CellNames(code.co_cellvars, code.co_freevars),
             linestarts=self.linestarts,
         ):
             offset = instr.offset
